@@ -1147,7 +1147,7 @@ func extParseFloat(fr *frame, args []value) value {
 			e = mm[1]
 		}
 		f := withOrigin(&sym{e: "((_ to_fp 11 53) RNE " + e + ")", k: symFP}, ns.n)
-		if ns.ow > 0 && ns.ow <= 53 && f.origin == nil {
+		if ns.ow > 0 && ns.ow <= 54 && f.origin == nil {
 			f.origin, f.ow = ns.n, ns.ow
 		}
 		return tuple{f, iface{}}
@@ -1185,7 +1185,7 @@ func exactOrigin(n *sym) (*sym, int) {
 		ext, _ := strconv.Atoi(mm[1])
 		w -= ext
 	}
-	if w > 53 {
+	if w > 54 { // a 54-bit two's complement integer has magnitude <= 2^53: exactly representable
 		return nil, 0
 	}
 	o := n
@@ -1205,13 +1205,59 @@ func extFormatFloat(fr *frame, args []value) value {
 	if !ok {
 		return strconv.FormatFloat(args[0].(float64), args[1].(byte), args[2].(int), args[3].(int))
 	}
+	if fm, ok1 := args[1].(uint8); ok1 && fm == 'g' && args[3] == 64 && f.origin != nil && f.ow <= 53 {
+		if p, okp := args[2].(int); okp && p >= 1 && p <= 17 {
+			// %.{p}g of an exactly converted integer: the integer rounded (half to even) to p significant
+			// digits. The text is kept as "the numeral of that integer": parsing it back yields it.
+			return numstr{n: roundSignificant(f.origin, p), ow: f.ow + 1} // rounding up may need one more bit
+		}
+	}
 	if fm, ok1 := args[1].(uint8); !ok1 || fm != 'f' || args[2] != -1 || args[3] != 64 {
-		panic(unsupported("strconv.FormatFloat of a symbolic double in a format other than ('f', -1, 64)"))
+		panic(unsupported("strconv.FormatFloat of a symbolic double in a format other than ('f', -1, 64) or ('g', p, 64) of an integer"))
 	}
 	if f.origin != nil {
 		return numstr{n: f.origin, ow: f.ow} // the text of an exactly converted integer is that integer's decimal text
 	}
 	return fpstr{f}
+}
+
+// roundSignificant: the 64-bit integer term n (|n| < 2^53 < 10^16) rounded half-to-even to p significant
+// decimal digits, as an integer term.
+func roundSignificant(n *sym, p int) *sym {
+	c := func(v uint64) string { return bvConst(v, 64) }
+	a := "(ite (bvslt " + n.e + " " + c(0) + ") (bvneg " + n.e + ") " + n.e + ")"
+	pow := func(k int) uint64 {
+		r := uint64(1)
+		for ; k > 0; k-- {
+			r *= 10
+		}
+		return r
+	}
+	val := a // fewer than p+1 digits: exact
+	// build from the largest magnitude down: digits = p+d, d = 16-p .. 1
+	expr := ""
+	for d := 16 - p; d >= 1; d-- {
+		m := pow(d)
+		q := "(bvudiv " + a + " " + c(m) + ")"
+		r := "(bvurem " + a + " " + c(m) + ")"
+		half := c(m / 2)
+		up := "(or (bvugt " + r + " " + half + ") (and (= " + r + " " + half + ") (= ((_ extract 0 0) " + q + ") #b1)))"
+		rounded := "(bvmul (ite " + up + " (bvadd " + q + " " + c(1) + ") " + q + ") " + c(m) + ")"
+		lower := c(pow(p + d - 1))
+		if expr == "" {
+			expr = rounded // the top region needs no upper bound (|n| < 10^16)
+			expr = "(ite (bvuge " + a + " " + lower + ") " + rounded + " @REST@)"
+		} else {
+			expr = strings.Replace(expr, "@REST@", "(ite (bvuge "+a+" "+lower+") "+rounded+" @REST@)", 1)
+		}
+	}
+	if expr == "" {
+		expr = val
+	} else {
+		expr = strings.Replace(expr, "@REST@", val, 1)
+	}
+	e := "(ite (bvslt " + n.e + " " + c(0) + ") (bvneg " + expr + ") " + expr + ")"
+	return &sym{e: e, k: symBV, w: 64, gk: types.Int64}
 }
 
 func extAtoi(fr *frame, args []value) value {
